@@ -48,7 +48,7 @@ CHECKS = {
   engine="c03_geometry", category="exploration", design_ref="DESIGN.md §5.1",
   technique="deterministic simulation: seeded interleaving of client programs on shared caching Geometry objects, injected resize failures and environment perturbations, per-step fresh-clone and reference-model oracles",
   text="Seeded search over histories on shared Geometry objects (all five classes, 1-3-D, scalar/array/Image weights): every step's integral is compared with a fresh clone (history independence), with an independent weighted-voxel-sum model (value, linearity, normalisation) and across two interleavings of the same client programs. Sampling, not proof: a clean batch is evidence that no history of <= 15 calls over the generated resolution classes leaves state behind.",
-  note="Trusted: numpy, OpenCV INTER_AREA conservativity for pure integer down/up-sampling (value oracle compares at 1e-5 relative on that path); seam name darsia.measure.integration.cv2; interleaving at call granularity only."),
+  note="Trusted: numpy (the value oracle compares at 1e-11 relative for every integer refinement / coarsening factor per axis, mixed included; non-integer ratios only perturb the cache); seam name darsia.measure.integration.cv2; interleaving at call granularity only."),
 }
 
 ENGINE_KIND = {
